@@ -28,22 +28,34 @@ def _load(pid: str):
 
 
 def do_setup() -> int:
+    """Build what the claimed checks need (their Coq cones + the engine oracle). Files of properties that are
+    not claimed yet (work in progress) are not built here and cannot break the setup."""
     from harness import translate
     t0 = time.time()
     errs = translate.run_all()
     for e in errs:
         print("translator:", e)
-    lib.ensure_makefile()
-    with lib.coq_lock():
-        r = lib.sh(["timeout", "3000", "make", "-k", f"-j{lib.NPROC}"], cwd=lib.COQ, timeout=3100)
-    print(r.stdout[-3000:])
+    claimed = (lib.VERIF / "harness" / "claimed.txt").read_text().split()
+    targets = ["model/Engine.vo", "model/EngineInv.vo"]
+    for pid in claimed:
+        try:
+            targets += list(getattr(_load(pid), "COQ_TARGETS", []))
+        except Exception as e:
+            print("cannot load", pid, e)
+    targets = sorted(set(targets))
+    b = lib.coq_build(targets, timeout=3000)
+    print(b.log[-3000:])
+    rc = 0 if b.ok else 1
     try:
         from harness import oracle
-        oracle.build(force=True)
+        err = oracle.build(force=True)
+        if err:
+            print("oracle:", err)
+            rc = 1
     except ImportError:
         pass
-    print(f"setup done in {time.time()-t0:.1f}s rc={r.returncode}")
-    return 0 if r.returncode == 0 and not errs else 1
+    print(f"setup done in {time.time()-t0:.1f}s rc={rc} targets={len(targets)}")
+    return rc
 
 
 def known_match(known: list[dict], pid: str, v: Violation) -> dict | None:
